@@ -12,6 +12,8 @@ it dispatches on, written branch by branch from the Python (line numbers of /rep
   * `SyncManager.path_conflict`                                          manager.py 289-317           → `pathConflict`
   * `SyncManager.check_revivify`, `pre_sync`                             manager.py 319-370           → `checkRevivify`, `preSync`
   * `SyncManager.sync`                                                   manager.py 372-464           → `syncSide`, `sync`
+  * `SyncManager._left_sync`, `_unlink_peer_that_left_sync` (the first step of `sync`)   manager.py 372-402   → `leftSync`, `unlinks`, `sync`
+    (`syncPre` = the function before that fix = the remaining branches)
   * `SyncManager._sync_one_entry`                                        manager.py 180-203           → `syncOne`
   * `SyncManager.delete_synced`, `_handle_dir_delete_not_empty`          manager.py 1029-1109         → `deleteSynced`, `dirNotEmpty`
   * `SyncManager.handle_path_change_or_creation`                         manager.py 1181-1259         → `hpcc`
@@ -795,8 +797,10 @@ structure SRes where
 /-- the side processed first: `sorted((LOCAL, REMOTE), key=lambda e: sync[e].changed or 0)` (382), a stable sort -/
 def firstSide (e : Entry) : Sd := if !e.l.changed || (e.r.changed && e.lLeR) then .loc else .rem
 
-def sync (o : Oracle) (e : Entry) : SRes :=
-  if hashConflict e then                                                          -- 377-380
+/-- `sync` BEFORE the confinement fix (`fix: … _unlink_peer_that_left_sync`), and the remaining branches of `sync` after it
+    (manager.py 404-491) -/
+def syncPre (o : Oracle) (e : Entry) : SRes :=
+  if hashConflict e then                                                          -- 404-407
     if o.hcTemp then ⟨.error .temp, [.hashConflict], e⟩ else ⟨.ok true, [.hashConflict], e⟩
   else
     let s1 := firstSide e
@@ -808,6 +812,27 @@ def sync (o : Oracle) (e : Entry) : SRes :=
       | .brk d e fx2 => ⟨.ok d, fx ++ fx2, e⟩
       | .raised x e fx2 => ⟨.error x, fx ++ fx2, e⟩
       | .cont e fx2 => ⟨.ok true, fx ++ fx2, e⟩                                   -- 384, 464
+
+/-- `SyncManager._left_sync(sync, side)` (manager.py 372-378): the side's object is live (id, path, EXISTS) and its path no longer
+    translates to the other side — it was moved out of the sync root -/
+def leftSync (o : Oracle) (e : Entry) (s : Sd) : Bool :=
+  let x := e.get s
+  x.oid && x.p.cur && x.ex == .present && !(o.tr s.other).some
+
+/-- the test of `_unlink_peer_that_left_sync` (380-394): both ids, not discarded, and for some side the OTHER side left the root
+    while this side has a change of its own to propagate -/
+def unlinks (o : Oracle) (e : Entry) : Bool :=
+  e.l.oid && e.r.oid && !e.ign.isDiscarded &&
+    ((leftSync o e .rem && e.l.needsSync) || (leftSync o e .loc && e.r.needsSync))
+
+/-- `SyncManager.sync` (manager.py 396-491).  New FIRST step (400-402): a peer that left the sync root is unlinked by
+    `state.split(sync)` and the round ends with False; nothing is written. -/
+def sync (o : Oracle) (e : Entry) : SRes :=
+  if unlinks o e then
+    match splitEntry e with
+    | .ok e' => ⟨.ok false, [.split], e'⟩
+    | .error x => ⟨.error x, [.split], e⟩          -- not reached: `unlinks` asks for LOCAL's id
+  else syncPre o e
 
 /-! ### `check_revivify`, `pre_sync` (manager.py 319-370), `_sync_one_entry` (180-203) -/
 
